@@ -103,35 +103,37 @@ Proof.
 Qed.
 
 (** chunkTotalSize is the number of bytes writeDataChunk writes *)
-Lemma chunk_total_correct id p : len p < 2^31 ->
+Lemma chunk_total_correct id p : len p < 2147483648 ->
   len (write_data_chunk id p) = chunk_total (u32 (len p)).
 Proof.
   intros H. pose proof (len_nonneg p). rewrite write_data_chunk_eq by lia.
   rewrite !len_app, !len_le32, len_pad_of. unfold chunk_total, u32, ChunkHeaderSize.
-  rewrite (Z.mod_small (len p)) by lia.
-  destruct (Z.eqb_spec (len p mod 2) 0); cbn [negb]; rewrite Z.mod_small by lia; lia.
+  rewrite (Z.mod_small (len p) 4294967296) by lia.
+  destruct (Z.eqb_spec (len p mod 2) 0); cbn [negb]; lia.
 Qed.
 
-Lemma write_data_chunk_even id p : len p < 2^31 -> len (write_data_chunk id p) mod 2 = 0.
+Lemma write_data_chunk_even id p : len p < 2147483648 -> len (write_data_chunk id p) mod 2 = 0.
 Proof.
   intros H. pose proof (len_nonneg p). rewrite write_data_chunk_eq by lia.
   rewrite !len_app, !len_le32, len_pad_of. lia.
 Qed.
 
 (** frameSubChunksSize is the number of bytes written for ALPH + bitstream *)
-Lemma sub_chunks_size_correct alpha bits : olen alpha < 2^31 -> len bits < 2^31 ->
+Lemma sub_chunks_size_correct alpha bits : olen alpha < 2147483648 -> len bits < 2147483648 ->
   len ((match alpha with Some a => write_data_chunk FCC_ALPH a | None => [] end) ++
        write_data_chunk (detect_type bits) bits) = sub_chunks_size alpha bits.
 Proof.
   intros Ha Hb. rewrite len_app, (chunk_total_correct _ bits Hb).
   unfold sub_chunks_size. pose proof (len_nonneg bits).
-  assert (Hct : forall p, 0 <= p < 2^31 -> 0 <= chunk_total (u32 p) < 2^31 + 16).
-  { intros p Hp. unfold chunk_total, u32, ChunkHeaderSize. rewrite (Z.mod_small p) by lia.
-    destruct (negb (p mod 2 =? 0)); rewrite Z.mod_small by lia; lia. }
+  assert (Hct : forall p, 0 <= p < 2147483648 -> 0 <= chunk_total (u32 p) < 2147483648 + 16).
+  { intros p Hp. unfold chunk_total, u32, ChunkHeaderSize. rewrite (Z.mod_small p 4294967296) by lia.
+    destruct (negb (p mod 2 =? 0)); lia. }
   destruct alpha as [a|]; cbn [olen] in Ha.
   - rewrite (chunk_total_correct _ a Ha). pose proof (len_nonneg a).
-    pose proof (Hct (len a)). pose proof (Hct (len bits)). unfold u32 at 1. rewrite Z.mod_small; lia.
-  - rewrite len_nil. pose proof (Hct (len bits)). unfold u32 at 1. rewrite Z.mod_small; lia.
+    pose proof (Hct (len a)). pose proof (Hct (len bits)).
+    set (x := chunk_total (u32 (len a))) in *. set (y := chunk_total (u32 (len bits))) in *. unfold u32. lia.
+  - rewrite len_nil. pose proof (Hct (len bits)).
+    set (y := chunk_total (u32 (len bits))) in *. unfold u32. lia.
 Qed.
 
 Lemma split_alpha_len data : let '(a, b) := split_alpha data in olen a <= len data /\ len b <= len data.
@@ -148,7 +150,7 @@ Qed.
 (** [anmf_size_correct]: the ANMF chunk written for a frame has exactly the size
     assembleExtended adds to the RIFF size, its size field is its payload length,
     and it is even (so the trailing padding byte is never needed). *)
-Lemma anmf_size_correct f : len (f_data f) < 2^30 ->
+Lemma anmf_size_correct f : len (f_data f) < 1073741824 ->
   len (write_anmf f) = frame_riff_size repaired true f /\
   len (write_anmf f) mod 2 = 0.
 Proof.
@@ -162,15 +164,15 @@ Proof.
   assert (Heven : len (wr ++ write_data_chunk (detect_type bits) bits) mod 2 = 0).
   { rewrite len_app. pose proof (write_data_chunk_even (detect_type bits) bits ltac:(lia)).
     unfold wr. destruct alpha as [a|]; [pose proof (write_data_chunk_even FCC_ALPH a ltac:(cbn [olen] in Ha; lia))|rewrite len_nil]; lia. }
-  assert (Hbound : 0 <= sub_chunks_size alpha bits < 2^32 - 100).
+  assert (Hbound : 0 <= sub_chunks_size alpha bits < 4294967296 - 100).
   { rewrite <- Hsub. rewrite len_app. pose proof (len_nonneg bits).
     rewrite (chunk_total_correct _ bits ltac:(lia)). unfold chunk_total, u32, ChunkHeaderSize.
-    rewrite (Z.mod_small (len bits)) by lia.
+    rewrite (Z.mod_small (len bits) 4294967296) by lia.
     unfold wr. destruct alpha as [a|].
     - pose proof (len_nonneg a). cbn [olen] in Ha. rewrite (chunk_total_correct _ a ltac:(lia)).
-      unfold chunk_total, u32, ChunkHeaderSize. rewrite (Z.mod_small (len a)) by lia.
-      destruct (negb (len a mod 2 =? 0)), (negb (len bits mod 2 =? 0)); rewrite !Z.mod_small by lia; lia.
-    - rewrite len_nil. destruct (negb (len bits mod 2 =? 0)); rewrite !Z.mod_small by lia; lia. }
+      unfold chunk_total, u32, ChunkHeaderSize. rewrite (Z.mod_small (len a) 4294967296) by lia.
+      destruct (negb (len a mod 2 =? 0)), (negb (len bits mod 2 =? 0)); lia.
+    - rewrite len_nil. destruct (negb (len bits mod 2 =? 0)); lia. }
   unfold ANMFChunkSize, ChunkHeaderSize, u32.
   rewrite (Z.mod_small (16 + sub_chunks_size alpha bits)) by lia.
   rewrite Hsub in Heven.
@@ -232,7 +234,7 @@ Proof. unfold len. rewrite Nat2Z.id. apply skipn_app_exact. Qed.
 
 (** the specification's chunk tiling reads one written chunk at the end of a form *)
 Lemma chunks_one t0 t1 t2 t3 p fuel :
-  bytes_ok p -> len p < 2^31 -> (0 < fuel)%nat ->
+  bytes_ok p -> len p < 2147483648 -> (0 < fuel)%nat ->
   chunks fuel ([t0; t1; t2; t3] ++ le32 (len p) ++ p ++ pad_of (len p)) = Some [([t0; t1; t2; t3], p)].
 Proof.
   intros Hb Hl Hf. pose proof (len_nonneg p) as H0.
@@ -268,7 +270,7 @@ Proof. unfold is_byte, le32. intros. repeat f_equal; lia. Qed.
 Theorem simple_layout_roundtrip fx dfx data fo m :
   m_frames m = [mkmf data fo] ->
   needs_vp8x fx m = false -> validate fx m = Ok tt ->
-  bytes_ok data -> len data < 2^31 ->
+  bytes_ok data -> len data < 2147483648 ->
   frame_parts data = Some (None, data) ->
   (is_some' (vp8_header data) || is_some' (vp8l_header data)) = true ->
   exists bs d, assemble fx m = Ok bs /\ wf bs = true /\ parse dfx bs = Ok d /\
@@ -280,7 +282,7 @@ Proof.
   intros Hfr Hnv Hval Hb Hl Hparts Hhdr.
   pose proof (len_nonneg data) as H0.
   unfold assemble. rewrite Hval, Hnv. cbn [bind]. unfold assemble_simple. rewrite Hfr.
-  cbn [f_data]. unfold u32. rewrite (Z.mod_small (len data)) by lia.
+  cbn [f_data]. unfold u32. rewrite (Z.mod_small (len data) 4294967296) by lia.
   set (padded := if negb (len data mod 2 =? 0) then (len data + 1) mod 4294967296 else len data).
   assert (Hpadded : padded = len data + len data mod 2).
   { unfold padded. destruct (Z.eqb_spec (len data mod 2) 0); cbn [negb]; [lia|rewrite Z.mod_small; lia]. }
